@@ -91,6 +91,69 @@ func transformFile(abs string, kind string) ([]byte, int, bool) {
 			}
 			return true
 		}, nil)
+	case "elsedrop":
+		// if c { ...; return } else { B }   ->   if c { ...; return }; B      (B declares nothing at its top level)
+		terminates := func(b *ast.BlockStmt) bool {
+			if len(b.List) == 0 {
+				return false
+			}
+			switch st := b.List[len(b.List)-1].(type) {
+			case *ast.ReturnStmt:
+				return true
+			case *ast.BranchStmt:
+				return st.Tok == token.CONTINUE || st.Tok == token.BREAK || st.Tok == token.GOTO
+			case *ast.ExprStmt:
+				if call, ok := st.X.(*ast.CallExpr); ok {
+					if id, ok := call.Fun.(*ast.Ident); ok && id.Name == "panic" {
+						return true
+					}
+				}
+			}
+			return false
+		}
+		declares := func(b *ast.BlockStmt) bool {
+			for _, st := range b.List {
+				switch x := st.(type) {
+				case *ast.AssignStmt:
+					if x.Tok == token.DEFINE {
+						return true
+					}
+				case *ast.DeclStmt, *ast.LabeledStmt:
+					return true
+				}
+			}
+			return false
+		}
+		ast.Inspect(file, func(x ast.Node) bool {
+			var list *[]ast.Stmt
+			switch b := x.(type) {
+			case *ast.BlockStmt:
+				list = &b.List
+			case *ast.CaseClause:
+				list = &b.Body
+			case *ast.CommClause:
+				list = &b.Body
+			}
+			if list == nil {
+				return true
+			}
+			var out []ast.Stmt
+			for _, st := range *list {
+				is, ok := st.(*ast.IfStmt)
+				if ok && is.Init == nil {
+					if eb, isBlk := is.Else.(*ast.BlockStmt); isBlk && terminates(is.Body) && !declares(eb) {
+						is.Else = nil
+						out = append(out, is)
+						out = append(out, eb.List...)
+						count++
+						continue
+					}
+				}
+				out = append(out, st)
+			}
+			*list = out
+			return true
+		})
 	case "ifinvert":
 		// if c {A} else {B}  ->  if !(c) {B} else {A}
 		ast.Inspect(file, func(x ast.Node) bool {
@@ -121,7 +184,7 @@ func transformFile(abs string, kind string) ([]byte, int, bool) {
 // neutral applies behaviour-preserving edits to every file a check looked at and reports checks that alarm.
 func neutral(ids []string) int {
 	kind := "rename"
-	if len(ids) > 0 && (ids[0] == "rename" || ids[0] == "swapeq" || ids[0] == "ifinvert" || ids[0] == "incdec") {
+	if len(ids) > 0 && (ids[0] == "rename" || ids[0] == "swapeq" || ids[0] == "ifinvert" || ids[0] == "incdec" || ids[0] == "elsedrop") {
 		kind, ids = ids[0], ids[1:]
 	}
 	if len(ids) == 0 {
